@@ -129,7 +129,14 @@ def unknown_path_rule(F, rep):
     val = L.strip_try(root)
     tail = L.strip_try(val.get("tail") or {})
     rep.ob("unknown.ok", tail.get("k") == "Call" and (declared(tail) or "").endswith("::Ok") and L.local_name(tail["args"][0]) == "code", fn, "tail", "an unknown (but declared) event must fall through to Ok(code)")
-    rets = [x for x in tir.walk(root) if x.get("k") == "Ret" and id(x) not in inside]
+    # the refusal of an event the file's own table does not declare is part of the size lookup (`ok_or_else(..)?`, or the None arm /
+    # else block of a match / let-else on the table entry): not an exit for declared-but-unknown events
+    lookup = set()
+    for st_ in tir.walk(root):
+        if st_.get("k") == "Let" and any(x.get("k") == "Index" and (tir.place(x["base"]) or "").endswith("payload_sizes") for x in tir.walk(st_.get("init") or {})):
+            for x in tir.walk(st_):
+                lookup.add(id(x))
+    rets = [x for x in tir.walk(root) if x.get("k") == "Ret" and id(x) not in inside and not (id(x) in lookup and (declared(strip(x.get("e") or {})) or "").endswith("::Err"))]
     rep.ob("unknown.no-early-exit", not rets, fn, "returns", "there is a return outside the known-event arms at %s" % [tir.sp(x) for x in rets[:3]])
 
 
@@ -162,6 +169,11 @@ def prefix_readers_rule(F, G, rep, R):
     def cls(body):
         """none | some: the arm's Option value, looking through an Ok(..) wrapper placed inside the branch"""
         body = L.strip_try(body)
+        if body.get("k") == "MethodCall" and body["method"] == "map" and len(body["args"]) == 1 and (strip(body["args"][0]).get("path") or "").endswith("::Some"):
+            # f(r).map(Some): Ok(v) -> Ok(Some(v)), the error passed on unchanged
+            inner = strip(body["recv"])
+            if inner.get("k") == "Call" and inner.get("res") == "local" and inner.get("name") == fname and len(inner["args"]) == 1 and L.local_name(inner["args"][0]) == rname:
+                return "some"
         if body.get("k") == "Call" and (declared(body) or "").endswith("::Ok") and len(body["args"]) == 1:
             body = L.strip_try(body["args"][0])
         if (body.get("path") or "").endswith("None") and body.get("k") == "Path":
